@@ -25,6 +25,7 @@ RULE = ('R-produced messages (compressed and not, 1-12 subsets, random templates
         'every non-empty subset of 0..n-1 for n<=4 each also in a permuted-with-repeat variant, and for larger n '
         'singletons, first/last, full, reversed, shuffled, with repeats, off by one; non-trivial = the collection '
         'is not the identity; distinct by SHA-1 of (message bytes, index list); same-layout-different-bitmap subsets; `pybufrkit subset` also with -t <tables root>')
+RULE += '; added with rounds 10-12: selections made from the loop body of a running scan on the scanning decoder, for messages with the same ids under another table version; CLI index lists with blanks / other order / repeats, negative and too large indices refused; twins'
 ASSUMPTIONS = ['all-ones == missing across an encode (2.6): accepted only when R\'s field metadata confirms the value is the all-ones pattern',
                'strings compared space-padded (2.7)', 'any exception counts as "refused" for out-of-range indices',
                'numeric fields wider than 48 bits with positive scale are not generated (float input cannot carry them)']
